@@ -331,6 +331,40 @@ def check_pack_detector(chk, detector, n, kinds, where):
     chk.absorb(e)
 
 
+def native_long_lists(chk, n):
+    """beyond the symbolic bound: EVERY list of n members over five sizes (bool 8, uint96, uint128, address 160, uint256) through both compiled
+    detectors, as state variables and as a struct, against the layout rule (reported => ascending order saves a slot; both sorted orders save a
+    slot => reported). Exhaustive over the family, decided by running the real code (DESIGN 4.4), not by the solver"""
+    import itertools
+    tys = {8: 'bool', 96: 'uint96', 128: 'uint128', 160: 'address', 256: 'uint256'}
+    lists = list(itertools.product(sorted(tys), repeat=n))
+    jobs, meta = [], []
+    for k, sizes in enumerate(lists):
+        decl = ' '.join('%s v%d;' % (tys[sz], i) for i, sz in enumerate(sizes))
+        for det, text in (('pack_storage_variables', 'pragma solidity 0.8.16;\ncontract C { %s }\n' % decl),
+                          ('pack_struct_variables', 'pragma solidity 0.8.16;\nstruct S { %s }\n' % decl)):
+            if (k + (det == 'pack_struct_variables')) % 2:
+                continue                               # each list through one of the two detectors, alternating
+            jobs.append(['detect', det, chk.native.file(text)]); meta.append((det, sizes, text))
+    bad = 0
+    for (det, sizes, text), nat in zip(meta, chk.native.run(jobs)):
+        chk.states += 1
+        d, a, ds = ref_slots(list(sizes)), ref_slots(sorted(sizes)), ref_slots(sorted(sizes, reverse=True))
+        rep = nat[0] == 'OK' and nat[1] != ''
+        wrong = nat[0] != 'OK' or (rep and not a < d) or (not rep and a < d and ds < d)
+        if wrong:
+            bad += 1
+            if bad <= 2:
+                chk.violation('%s:%s' % (det, 'panic' if nat[0] != 'OK' else 'unsound' if rep else 'missed'),
+                              '%s on %d members of sizes %r: %s; declared %d slots, ascending %d, descending %d' % (
+                                  det, n, list(sizes), 'panics' if nat[0] != 'OK' else 'reported' if rep else 'not reported', d, a, ds),
+                              {'job': 'detect', 'detector': det, 'source': text, 'observed': nat})
+        else:
+            chk.ok()
+    chk.validated += len(meta)
+    chk.sample({'long member lists': 'all %d lists of %d members over the sizes %r, alternating between the two detectors' % (len(lists), n, sorted(tys))})
+
+
 def concretize_widths(v, m):
     """evaluate the symbolic width parameters of Type::Uint/Int/Bytes under the model"""
     from ..engine import BoxV, Tuple
@@ -401,6 +435,8 @@ def body(chk):
         cases.append(('pack_storage_variables', len(mx), mx, 'mixed_contract'))
         cases.append(('pack_struct_variables', len(mx), mx, 'mixed_struct' if len(mx) % 2 else 'mixed_struct_contract'))
     chk.parallel(lambda c, it: check_pack_detector(c, *it), cases)
+    for n_ in ((5,) if chk.quick else (5, 6)):
+        native_long_lists(chk, n_)
     kani_cross_check(chk)
 
 
